@@ -117,10 +117,13 @@ func VerifC20History() {
 	}
 	// 5. the reads
 	setModes("modeAtRead", nm)
-	readWithoutMeta := false
+	readWithoutMeta, someShardDegraded := false, false
 	for i := range w.shards {
-		if holds(i) && w.shards[i].GetMode().NoMetabase() {
-			readWithoutMeta = true
+		if w.shards[i].GetMode().NoMetabase() {
+			someShardDegraded = true
+			if holds(i) {
+				readWithoutMeta = true
+			}
 		}
 	}
 	got, err := w.e.Get(ctx, addr)
@@ -133,6 +136,8 @@ func VerifC20History() {
 	case accepted && !readWithoutMeta:
 		if holderState != "" {
 			vrt.Assert(err != nil && herr != nil, "an object whose removal the engine reported as done is not returned any more ("+removalName+" accepted while a shard holding a copy was "+holderState+")")
+		} else if kind == 1 && someShardDegraded {
+			vrt.Assert(err != nil && herr != nil, "an object whose removal the engine reported as done is not returned any more (garbage mark; another shard is degraded at read time)")
 		} else {
 			vrt.Assert(err != nil && herr != nil, "an object whose removal the engine reported as done is not returned any more")
 		}
